@@ -414,6 +414,55 @@ class Exec(ExprMixin, HeapMixin, StmtMixin, CallMixin, BuiltinMixin):
         self.global_facts.append(z3.ForAll(outer + [k], ax_idx, patterns=[th.Idx(mk, k)]))
         return V(BYTES, self.joindata(th)(mk))
 
+    def spec_all_in(self, e, st):
+        """all_in(container, lambda x: P): every element of a set / key of a dict / item of a list satisfies P
+        (an unbounded quantifier in the proof, an exact loop over the container at run time)."""
+        cont = self.ev(e.args[0], st)
+        lam = e.args[1]
+        if isinstance(cont.t, TOpt):
+            cont = opt_get(cont)
+        name = lam.args.args[0].arg
+        saved = st.frames[-1]
+        if isinstance(cont.t, (TSet, TDict)):
+            es = sort_of(cont.t.elt if isinstance(cont.t, TSet) else cont.t.key)
+            et = cont.t.elt if isinstance(cont.t, TSet) else cont.t.key
+            x = z3.Const(fresh_name(name), es)
+            member = self.set_has(st, cont, unbox(x, et)) if isinstance(cont.t, TSet) else self.dict_has(st, cont, unbox(x, et))
+            frame = dict(saved)
+            frame[name] = unbox(x, et)
+            st.frames[-1] = frame
+            self.bound_vars.append(x)
+            try:
+                body = self.truth(self.ev(lam.body, st), st)
+            finally:
+                st.frames[-1] = saved
+                self.bound_vars.pop()
+            return V(BOOL, z3.ForAll([x], z3.Implies(member, body), patterns=[member]))
+        if isinstance(cont.t, (TList, TSeq, TBytes)):
+            th = theory_of(cont.t)
+            seq = self.list_content(st, cont) if isinstance(cont.t, TList) else cont.z
+            elt = INT if isinstance(cont.t, TBytes) else cont.t.elt
+            k = z3.Int(fresh_name("k"))
+            frame = dict(saved)
+            frame[name] = unbox(th.Idx(seq, k), elt)
+            st.frames[-1] = frame
+            self.bound_vars.append(k)
+            try:
+                body = self.truth(self.ev(lam.body, st), st)
+            finally:
+                st.frames[-1] = saved
+                self.bound_vars.pop()
+            return V(BOOL, z3.ForAll([k], z3.Implies(z3.And(0 <= k, k < th.Len(seq)), body), patterns=[th.Idx(seq, k)]))
+        raise Unsupported(f"all_in over {cont.t}")
+
+    def spec_loop_seq(self, e, st):
+        """loop_seq(k): the (snapshot) sequence iterated by for-loop number k of the function under contract."""
+        k = e.args[0].value
+        v = st.locals.get("$iter%d" % k)
+        if v is None:
+            raise Unsupported(f"loop_seq({k}): no iterated sequence in scope")
+        return v
+
     def spec_pow2(self, e, st):
         return V(INT, prelude().pow2(self.as_int(self.ev(e.args[0], st), st, e)))
 
